@@ -153,6 +153,9 @@ type goalPiece struct {
 
 // splitGoal breaks a goal into independently checkable pieces: conjunctions are split, implications move their
 // antecedent to the hypotheses, universally quantified goals are skolemised.
+// lemmaSplit enables case splitting on disjunctive premises (set while lemma obligations are generated)
+var lemmaSplit bool
+
 func (e *Engine) splitGoal(goal *Term) []goalPiece {
 	tb := e.tb
 	var out []goalPiece
@@ -168,6 +171,24 @@ func (e *Engine) splitGoal(goal *Term) []goalPiece {
 				rec(h, a, depth+1)
 			}
 		case "=>":
+			// (A && (B1 || B2)) => G  is proved by cases on the disjunction (lemmas about disjoint ranges are far
+			// easier for the solvers one case at a time); only for lemma-sized goals
+			if ante := g.Args[0]; lemmaSplit && depth < 3 {
+				conj := []*Term{ante}
+				if ante.Op == "and" {
+					conj = ante.Args
+				}
+				for ci, c := range conj {
+					if c.Op == "or" && len(c.Args) <= 3 && !c.hasBV {
+						for _, d := range c.Args {
+							rest := append(append([]*Term{}, conj[:ci]...), conj[ci+1:]...)
+							rest = append(rest, d)
+							rec(append(append([]*Term{}, h...), rest...), g.Args[1], depth+1)
+						}
+						return
+					}
+				}
+			}
 			rec(append(append([]*Term{}, h...), g.Args[0]), g.Args[1], depth+1)
 		case "forall":
 			m := map[*Term]*Term{}
